@@ -105,7 +105,12 @@ def main():
         # the 'before' read is skipped for bzip2 (its reader cannot seek back: C02's subject) and for
         # empty SIE files (the reader rejects a zero-byte file)
         before = "get a %d %d 0 %d" % (t, off, n + 2) if enc != "bzip2" and not (enc == "sie" and n == 0) else "nframes"
-        sc += ["close", "open %s rw" % d, before]
+        # half of the cases restructure through the handle that has just written the field (data file open for
+        # writing, out-of-place write still pending), the others through a fresh handle
+        if n and rng.random() < 0.5:
+            sc += [before]
+        else:
+            sc += ["close", "open %s rw" % d, before]
         sc += [o.replace("@D", d) for o in ops]
         ia = len(sc)
         sc += ["get a %d %d 0 %d" % (ta, offa, na), "close", "open %s rw" % d, "get a %d %d 0 %d" % (ta, offa, na), "close"]
@@ -121,9 +126,11 @@ def main():
             for t in (types_q if chk.thorough else rng.sample(types_q, 3)):
                 for sex in gdlib.sexes_for(t):
                     off = rng.choice([0, 1, 3]); spf = rng.choice([1, 2])
-                    n = rng.choice(lengths(t) if ein != "sie" else lengths(t)[1:]) // spf * spf
+                    n = rng.choice(lengths(t) if ein != "sie" else lengths(t)[1:])
+                    if rng.random() < 0.5:
+                        n = n // spf * spf            # half of the fields hold whole frames only, half end in a partial frame
                     if ein == "sie" and n == 0:
-                        n = spf
+                        n = 1
                     comps = values(rng, t, n, "text" in (ein, eout))
                     new_case("alter_encoding", t, ein, sex, off, spf, comps, ["alter_encoding %s 0 1" % eout],
                              {"t": t, "off": off, "comps": comps},
@@ -167,21 +174,26 @@ def main():
         for sex in ("l", "b"):
             for t in ut:
                 t2 = rng.choice([x for x in ut if x != t])
-                n = rng.choice(lengths(t)[1:])
+                spf_ = rng.choice([1, 2, 3])
+                n = rng.choice(lengths(t)[1:]) + rng.randint(0, spf_ - 1)
                 comps = values(rng, t, n, False)
                 want = [z & ((1 << 8 * CSIZE[t2]) - 1) for z in comps]
                 off_ = rng.choice([0, 1])
-                new_case("alter_raw-type", t, enc, sex, off_, 1, comps, ["alter_raw a %d 0 1" % t2],
+                new_case("alter_raw-type", t, enc, sex, off_, spf_, comps, ["alter_raw a %d 0 1" % t2],
                              {"t": t2, "off": off_, "comps": want},
                              "retype %d %d %s %s %s" % (t, t2, cls(enc), sex, gdlib.hexs(comps)), "%s %s %s->%s" % (enc, sex, NAMES[t], NAMES[t2]))
         for (o, nn) in ((1, 2), (2, 1), (2, 3), (3, 2), (4, 1)):
             t = rng.choice([1, 3, 8]); sex = "l"
             nf = rng.choice([3, 9, 20])
-            comps = values(rng, t, nf * o, enc == "text")
+            part = rng.randint(0, o - 1)        # samples of a trailing partial frame
+            comps = values(rng, t, nf * o + part, enc == "text")
             want = []
             for q in range(nf):
                 for j in range(nn):
                     want.append(comps[q * o + j * o // nn])
+            # the partial frame keeps floor(part * new / old) samples, each taken from the old partial frame
+            for j in range(part * nn // o):
+                want.append(comps[nf * o + j * o // nn])
             new_case("alter_raw-spf", t, enc, sex, 0, o, comps, ["alter_raw a -1 %d 1" % nn],
                          {"t": t, "off": 0, "comps": want}, None, "%s spf %d->%d" % (enc, o, nn))
     for c in cases:
